@@ -265,19 +265,19 @@ class Date:
         return self.__add__(other)
 
     def __gt__(self, other):
-        return self._mjd > other._mjd
+        return self._datetime > other._datetime
 
     def __ge__(self, other):
-        return self._mjd >= other._mjd
+        return self._datetime >= other._datetime
 
     def __lt__(self, other):
-        return self._mjd < other._mjd
+        return self._datetime < other._datetime
 
     def __le__(self, other):
-        return self._mjd <= other._mjd
+        return self._datetime <= other._datetime
 
     def __eq__(self, other):
-        return self._mjd == other._mjd
+        return self._datetime == other._datetime
 
     def __repr__(self):  # pragma: no cover
         return f"<{self.__class__.__name__} '{self}'>"
@@ -295,7 +295,7 @@ class Date:
 
     def __hash__(self):
         # hash what __eq__ compares
-        return hash(self._mjd)
+        return hash(self._datetime)
 
     @classmethod
     def _convert_dt(cls, dt):
